@@ -638,6 +638,11 @@ fn gen_case(r: &mut Rng, out: &mut Out, nx: usize, case_id: u64) -> Vec<String> 
             };
             ops.push(format!("acl {} {} {} {} {}", f, r.pick(&privs), mode, subj, tgt));
         }
+        if r.chance(1, 4) {
+            // an entry whose subject is a CASE Authenticated Tag (identifier 1, version 2)
+            ops.push(format!("acl {} {} c 18446744060824649730 null", f, r.pick(&[3u8, 7, 15])));
+            out.stat("acl_cat_entry", 1);
+        }
         if r.chance(1, 2) {
             let ng = r.range(1, 4);
             for _ in 0..ng {
@@ -727,13 +732,17 @@ fn gen_case(r: &mut Rng, out: &mut Out, nx: usize, case_id: u64) -> Vec<String> 
                 }
             }
         }
+        // tags of the requester's NOC: version above / equal / below the entry's, another identifier
+        let cats = if mode == "c" && r.chance(1, 4) { *r.pick(&["65538", "65539", "65537", "131074", "65537,131075"]) } else { "-" };
+        if cats != "-" { out.stat("requester_with_cats", 1); }
         ops.push(format!(
-            "x {} {} {} {} {} - {} {} {}",
+            "x {} {} {} {} {} {} {} {} {}",
             kind,
             fab,
             mode,
             aux,
             id,
+            cats,
             timed,
             if excl.is_empty() { "-".to_string() } else { excl.join(",") },
             paths.join(";")
@@ -807,8 +816,8 @@ fn gen_case(r: &mut Rng, out: &mut Out, nx: usize, case_id: u64) -> Vec<String> 
         }
     }
     // requests through the REAL InteractionModel with an instrumented handler (effect stream)
-    if r.chance(1, 3) {
-        let ne2e = r.range(1, 3);
+    if r.chance(2, 3) {
+        let ne2e = r.range(1, 4);
         for _ in 0..ne2e {
             let kind = *r.pick(&["r", "r", "r", "w", "w", "w", "i", "i", "i", "v", "v"]);
             let (fab, mode, id): (u64, &str, u64) = match r.below(10) {
@@ -949,9 +958,11 @@ fn gen_case(r: &mut Rng, out: &mut Out, nx: usize, case_id: u64) -> Vec<String> 
                     paths.push(p);
                 }
             }
+            let cats = if mode == "c" && r.chance(1, 4) { *r.pick(&["65538", "65539", "65537", "131074", "65537,131075"]) } else { "-" };
+            if cats != "-" { out.stat("e2e_requester_with_cats", 1); }
             ops.push(format!(
-                "e2e {} {} {} {} - {} {} {} {}",
-                kind, fab, mode, id, treq, flag, paths.join(";"), if emit.is_empty() { "-".to_string() } else { emit.join(",") }
+                "e2e {} {} {} {} {} {} {} {} {}",
+                kind, fab, mode, id, cats, treq, flag, paths.join(";"), if emit.is_empty() { "-".to_string() } else { emit.join(",") }
             ));
         }
     }
